@@ -26,7 +26,7 @@ var properties = map[string]*Property{
 		NotDecided: "hash collision freedom; that returned bytes equal the original.",
 	},
 	"C03": {
-		Rules:      []string{"R-GOREC", "R-PANIC-API", "R-CLI-REC", "R-CANCEL", "R-ALLOC-GUARD"},
+		Rules:      []string{"R-GOREC", "R-PANIC-API", "R-CLI-REC", "R-CANCEL", "R-ALLOC-GUARD", "R-ERRSTATE"},
 		Decided:    "every library goroutine installs a recover before it can panic; no declared panicking bitstream operation or explicit panic is reachable from the Reader API without crossing a recovering frame; CLI entry points run under runWithRecovery; spin waits have a cancel exit and yield; data-derived allocation sizes on the decode path are bounded.",
 		NotDecided: "termination within a time bound; implicit runtime panics (index/nil) raised in the calling goroutine outside a recovering frame.",
 	},
@@ -46,17 +46,17 @@ var properties = map[string]*Property{
 		NotDecided: "Write/Read buffer-length independence (arithmetic); sink-side chunking.",
 	},
 	"C07": {
-		Rules:      []string{"R-TOKEN", "R-CANCEL", "R-POISON"},
+		Rules:      []string{"R-TOKEN", "R-CANCEL", "R-POISON", "R-ERRSTATE"},
 		Decided:    "exclusive and ordered access to the shared stream (dominance by the acquire edge, nothing after release); every task exit passes the token or cancels, including panics; waiters have a cancel exit; every task joins; a failure is reported by the enclosing call and stays reported.",
 		NotDecided: "fairness/timing (\"promptly\"); memory-model subtleties beyond all accesses being sync/atomic.",
 	},
 	"C08": {
-		Rules:      []string{"R-PANIC-API", "R-IOERR", "R-EOS-ERR", "R-CLOSE-ORDER", "R-POISON"},
+		Rules:      []string{"R-PANIC-API", "R-IOERR", "R-EOS-ERR", "R-CLOSE-ORDER", "R-POISON", "R-ERRSTATE"},
 		Decided:    "no declared bitstream panic escapes the Writer/Reader API; no error of the underlying sink/source is dropped; a source error is never turned into a clean end of stream by the refill; closed flags are set only after successful flush/close; a failed write batch cannot be followed by a successful Close.",
 		NotDecided: "counter restoration arithmetic in DefaultOutputBitStream.Close.",
 	},
 	"C09": {
-		Rules:      []string{"R-EOS-ONLY", "R-EOS-ERR", "R-CLOSE-ORDER", "R-PANIC-API"},
+		Rules:      []string{"R-EOS-ONLY", "R-EOS-ERR", "R-CLOSE-ORDER", "R-PANIC-API", "R-ERRSTATE"},
 		Decided:    "the only clean exits of a decode task are cancel, end marker, range skip and normal completion; exhausting the source is an error (panic) that the recovering frames turn into a reported error; the writer emits the end marker on every successful close.",
 		NotDecided: "bit-level behaviour of the partial last word in pull().",
 	},
